@@ -112,6 +112,9 @@ TARGET_VARIANTS = [(["car", "pedestrian", "bicycle"], False), (["car", "truck", 
                    (["BICYCLE", "motorbike", "car"], True), (["car", "pedestrian", "bicycle"], False)]
 
 
+CORRUPT_PREFIXES = ["", "auto", "ware", "Autoware", "autoware ", "traffic", "light", "_", "traffic_light_", "a", "foo", None, 5]
+
+
 def concrete(c):
     # target spellings: distinct labels, labels that merge into one class, an alias of the same class (the number of target labels is the
     # number of names given, whatever they resolve to)
@@ -119,6 +122,12 @@ def concrete(c):
 
     names, merge = TARGET_VARIANTS[zlib.crc32(json.dumps(c, sort_keys=True).encode()) % len(TARGET_VARIANTS)]
     d = {"evaluation_task": c["task"], "target_labels": names[: c["n"]], "label_prefix": "autoware", "merge_similar_labels": merge}
+    pk = c.get("prefix", "ok")
+    if pk == "missing":
+        del d["label_prefix"]
+    elif pk == "corrupt":
+        # near misses of the two family names: parts of them, other case, padding, another type
+        d["label_prefix"] = CORRUPT_PREFIXES[zlib.crc32(json.dumps(c, sort_keys=True).encode() + b"p") % len(CORRUPT_PREFIXES)]
     if c["mgr"] == "sensing":
         d.update({"box_scale_0m": 1.0, "box_scale_100m": 1.0, "min_points_threshold": 1})
     if c["x"]:
@@ -153,10 +162,21 @@ def concrete(c):
 
 
 def replay_cfg(arg):
+    c, out = arg
+    if c.get("prefix") != "corrupt":
+        return replay_cfg_one(c, out, None)
+    mism = []
+    for v in CORRUPT_PREFIXES:      # every near miss of a family name
+        mism += replay_cfg_one(c, out, v)
+    return mism
+
+
+def replay_cfg_one(c, out, prefix_value):
     from perception_eval.config import PerceptionEvaluationConfig, SensingEvaluationConfig
 
-    c, out = arg
     d, frame_id = concrete(c)
+    if c.get("prefix") == "corrupt":
+        d["label_prefix"] = prefix_value
     cls = PerceptionEvaluationConfig if c["mgr"] == "perception" else SensingEvaluationConfig
     rep = {"abstract": c, "dict": d, "frame_id": frame_id, "spec_accept": out[0]}
     root = os.path.join(_tmp(), "c%d" % (abs(hash(json.dumps(c, sort_keys=True))) % 10**9))
@@ -175,6 +195,8 @@ def replay_cfg(arg):
             why.append("unknown-metric-parameter")
         if (c["x"] or c["y"]) and (c["dmax"] or c["dmin"]):
             why.append("both-range-kinds")
+        if c.get("prefix", "ok") != "ok":
+            why.append("label-prefix-" + c["prefix"])
         if not why:
             why.append("other")
         mism.append(("config-accepted:" + "+".join(why), "%s accepted %s" % (cls.__name__, d), rep))
